@@ -18,5 +18,5 @@ def run(ctx):
         ctx, "C27",
         mc_cfgs=[ctx.q("c27", "c27_thorough")],
         neg_cfgs=[("neg_sparse_drop_tree", "Inv_C27"), ("neg_sparse_delete", "Inv_C27"), ("finding_sparse_panic", "Inv_C27")],
-        gen_cfgs=[("gen_c27", ctx.q(300, 4000))],
-        n_random=ctx.q(300, 6000), focus="sparse")
+        gen_cfgs=[("gen_c27", ctx.q(300, 2400))],
+        n_random=ctx.q(300, 4000), focus="sparse")
